@@ -1,3 +1,4 @@
+import WS.Lemmas.PairRoundtrip
 import WS.Lemmas.WriterMore
 import WS.Lemmas.MaskTrunc
 import WS.Lemmas.Mask
@@ -57,6 +58,33 @@ theorem writeMessage_control_roundtrip (s : W) (hi : Idle s) (hcap : maxFrameHea
     wireMessages (writeMessage s t data).2 = wireMessages s ∧
     wireControls (writeMessage s t data).2 = wireControls s ++ [(t, data)] := by
   first | exact WriterMore.writeMessage_control_roundtrip .. | (apply WriterMore.writeMessage_control_roundtrip <;> assumption)
+
+open WS.ReaderDecodes WS.PairRoundtrip in
+/-- round_trip (the property's headline, as one theorem): whatever `WriteMessage(t, data)` on one
+    connection puts on the wire — any payload below 2^40 bytes, any write buffer size, either role
+    (masked or not) — a connection of the opposite role reads as exactly `(t, data)`: NextReader returns
+    the type, reading to the end with reads of ANY size through ANY bufio size ≥ 125 and ANY transport
+    chunking yields exactly the payload and then end-of-message, no handler is invoked, and the reader
+    is idle again with the following bytes untouched -/
+theorem round_trip (s : W) (hi : Content.Idle s) (t : Nat) (ht : t = 1 ∨ t = 2) (data : Bytes)
+    (hd : data.length < 2 ^ 40)
+    (c : Conn) (hc : ReaderIdle c) (hrole : c.r.isServer = !s.isServer) (rest : Bytes)
+    (hp : c.r.buf.pending = (writeMessage s t data).2.wire.drop s.wire.length ++ rest)
+    (hend : c.r.buf.t.together = false ∨ rest ≠ []) (hlim : c.r.limit ≤ 0) (k : Nat) (hk : 0 < k) :
+    ∃ c1 rid, nextReader c = (.msg t rid false, c1) ∧
+      ∃ c2, readAll c1 rid k = ((data, none), c2) ∧ ReaderIdle c2 ∧ c2.r.buf.pending = rest ∧
+        c2.r.hlog = c.r.hlog := by
+  first | exact PairRoundtrip.pair_roundtrip .. | (apply PairRoundtrip.pair_roundtrip <;> assumption)
+
+open WS.ReaderDecodes WS.PairRoundtrip in
+/-- the bridge between the two sides: the frames WriteMessage appends form one conformant message
+    (first frame of type t, continuations, FIN on the last; no control frames) whose payload is data -/
+theorem writeMessage_frames (s : W) (hi : Content.Idle s) (t : Nat) (ht : t = 1 ∨ t = 2) (data : Bytes)
+    (hd : data.length < 2 ^ 40) :
+    ∃ fs : List PFrame, MsgShape t fs ∧ dataPayload fs = data ∧ ctlEvents fs = [] ∧
+      (writeMessage s t data).2.wire = s.wire ++ encAll (!s.isServer) fs := by
+  first | exact PairRoundtrip.writeMessage_frames .. | (apply PairRoundtrip.writeMessage_frames <;> assumption)
+
 
 /-! ### non-vacuity -/
 section NonVacuity
